@@ -226,7 +226,7 @@ func noExpr(path string) bool {
 var funcNames = map[string]bool{"title": true, "type": true, "file": true, "upper": true, "lower": true, "trim": true, "json": true, "default": true,
 	"string": true, "int": true, "escape": true, "len": true, "first": true, "last": true, "max": true, "min": true, "count": true, "formatTime": true, "formatDate": true, "jsonPretty": true, "jsonFile": true, "yamlFile": true}
 
-var strLits = []string{"a", "b", "c", "d", "p", "RN"}
+var strLits = []string{"a", "b", "Österreich", "d", "日本", "RN"}
 var fltLits = []string{"0.5", "1.5", "2.25", "3.75"}
 
 // litFor picks a literal of the kind of sample s; salt varies the choice.
@@ -299,7 +299,7 @@ func readsFor(sc sscope, d Data, name string, salt int, choose func(n int) int, 
 	// a bound attribute named like the variable itself (<option :value="value">): plain path
 	// binding, no expression; attribute names are lower case in HTML
 	selfAttr := func() {
-		if bound && name == strings.ToLower(name) && (choose == nil || choose(2) == 0) {
+		if bound && name == strings.ToLower(name) && isASCII(name) && (choose == nil || choose(2) == 0) {
 			out = append(out, Read{Pos: "nattr", Cond: Cond{Path: path}})
 		}
 	}
@@ -386,6 +386,10 @@ func readsFor(sc sscope, d Data, name string, salt int, choose func(n int) int, 
 	}
 	op := "=="
 	switch {
+	case salt%7 == 5:
+		op = "===" // documented as the same as ==
+	case salt%7 == 6:
+		op = "!=="
 	case salt%5 == 3:
 		op = "!="
 	case salt%5 == 4 && (s.K == "int" || s.K == "float64"):
@@ -444,6 +448,15 @@ func textOf(id string, sc sscope, d Data, names []string, salt int, choose func(
 	return Node{Text: n.Probe}
 }
 
+func isASCII(s string) bool {
+	for _, r := range s {
+		if r > 127 {
+			return false
+		}
+	}
+	return true
+}
+
 func sampleOK(c vals.V) bool { _, ok := firstNonNil(c); return ok }
 
 func uniq(names []string) []string {
@@ -477,7 +490,8 @@ func probeRich(id string, sc sscope, d Data, names []string, salt int, choose fu
 
 // ---------------------------------------------------------------- collections
 
-var letters = []string{"a", "b", "c", "d", "p", "q"}
+// letters: item values, among them multi-byte text
+var letters = []string{"a", "b", "Österreich", "d", "日本", "q", "İstanbul", "😀"}
 
 // collKinds are the sequence kinds of the property's quantifier ("[]any" in three flavours).
 var collKinds = []string{"[]any:str", "[]any:int", "[]any:map", "[]string", "[]int", "[]float64", "[]bool", "[3]int", "[]map", "[]rec", "[]*rec", "[]emb", "[]pemb", "[]*emb", "[]qty", "[2]ratio", "[]dur", "[]flag", "[]name", "[]*task", "[2]*task", "[]task", "[]any:*task"}
@@ -638,7 +652,7 @@ func core1(full bool, yield func(Case) bool) {
 			}
 			elem := sampleElem(coll)
 			// the fresh name is v, the name of a registered template function or of an expression built-in
-			varNames := append([]string{[]string{"v", "type", "first", "title", "upper", "count"}[ci%6]}, rs.shadow...)
+			varNames := append([]string{[]string{"v", "type", "first", "город", "title", "upper", "count", "größe"}[ci%8]}, rs.shadow...)
 			varNames = append(varNames, collName)
 			for _, vn := range varNames {
 				idxNames := []string{"", "i", rs.idxName}
@@ -696,7 +710,7 @@ func core1(full bool, yield func(Case) bool) {
 						if cb.tag != "template" && i%3 != 0 {
 							if p, _, _, ok := scalarPaths(inner, d, vn); ok && !noExpr(p[0]) {
 								l.Bind = p[0]
-								if vn == strings.ToLower(vn) && i%2 == 1 {
+								if vn == strings.ToLower(vn) && isASCII(vn) && i%2 == 1 {
 									l.BindAs = vn // the bound attribute is named like the loop variable
 								}
 							}
@@ -1116,6 +1130,7 @@ func (g *gen) elem(k string, depth int, label string) vals.V {
 		}
 		if ch, has := m.M["children"]; has {
 			m.M["kids-list"] = ch // the same list under a key only brackets can spell
+			m.M["ключи"] = ch     // ... and under a non-ASCII key
 		}
 		return m
 	case "[]flag":
@@ -1203,12 +1218,12 @@ func (g *gen) data() {
 			}
 			break
 		}
-		for _, k := range []string{"name", "label", "total", "out", "v", "i", "Name", "value", "id", "title", "type"} {
+		for _, k := range []string{"name", "label", "total", "out", "v", "i", "Name", "value", "id", "title", "type", "город", "项"} {
 			if g.int(0, 2, "has"+k) > 0 {
 				g.d.Slots = append(g.d.Slots, Slot{k, g.scalar(k)})
 			}
 		}
-		for _, k := range []string{"xs", "ys", "zs", "items"} {
+		for _, k := range []string{"xs", "ys", "zs", "items", "города"} {
 			if g.int(0, 3, "has"+k) > 0 {
 				g.d.Slots = append(g.d.Slots, Slot{k, g.anyColl(k)})
 			}
@@ -1244,8 +1259,8 @@ func (g *gen) data() {
 }
 
 // fresh names; value / href / lang / id are also common attribute names (:value="value")
-var freshVars = []string{"v", "w", "it", "e", "q", "value", "href", "lang", "type", "title", "file", "upper", "json", "default", "first", "last"}
-var freshIdx = []string{"i", "j", "k", "n", "id", "trim", "lower", "max", "count"}
+var freshVars = []string{"v", "w", "it", "e", "q", "value", "href", "lang", "type", "title", "file", "upper", "json", "default", "first", "last", "город", "größe", "项", "άλφα"}
+var freshIdx = []string{"i", "j", "k", "n", "id", "trim", "lower", "max", "count", "ключ", "naïve"}
 
 // incNames: prop names of generated component calls; they overlap with root keys, loop
 // variable names and names that are never defined.
@@ -1283,7 +1298,7 @@ func (g *gen) collPaths(sc sscope) []string {
 				out = append(out, n+".0.children", n+".0.kids-list")
 			}
 		case s.K == "map":
-			out = append(out, n+".children", n+".kids-list")
+			out = append(out, n+".children", n+".kids-list", n+".ключи")
 		case s.K == "rec" || s.K == "*rec":
 			out = append(out, n+".Kids")
 		case isEmb(s.K):
@@ -1321,7 +1336,7 @@ func (g *gen) cond(sc sscope, l *Loop, outerNames []string) *Cond {
 			return &Cond{Path: p}
 		}
 		salt := g.int(0, 9, "iflit")
-		ops := []string{"==", "!=", "!="}
+		ops := []string{"==", "!=", "!=", "===", "!=="}
 		if s.K == "int" || s.K == "float64" {
 			ops = append(ops, "<", ">")
 		}
@@ -1382,7 +1397,7 @@ func (g *gen) loop(sc sscope, depth int, outerVars []string) []Node {
 	switch {
 	case ok && isSeq(c.K) && sampleOK(c):
 		elem, _ = firstNonNil(c)
-	case strings.HasSuffix(l.Coll, ".children"), strings.HasSuffix(l.Coll, ".kids-list"):
+	case strings.HasSuffix(l.Coll, ".children"), strings.HasSuffix(l.Coll, ".kids-list"), strings.HasSuffix(l.Coll, ".ключи"):
 		elem = mapOf("a", 1) // children are lists of maps, also where the sample item has none
 	case strings.HasSuffix(l.Coll, ".Kids"):
 		elem = recOf("a", "ta", 1)
@@ -1392,7 +1407,7 @@ func (g *gen) loop(sc sscope, depth int, outerVars []string) []Node {
 		elem = sampleElem(c)
 	}
 	// nil items: known for a root collection; for item.children any list of the case may have one
-	nullable := (ok && hasNil(c)) || (g.nils && (strings.HasSuffix(l.Coll, ".children") || strings.HasSuffix(l.Coll, ".kids-list")))
+	nullable := (ok && hasNil(c)) || (g.nils && (strings.HasSuffix(l.Coll, ".children") || strings.HasSuffix(l.Coll, ".kids-list") || strings.HasSuffix(l.Coll, ".ключи")))
 	inner := sc.bind(l.Var, elem, nullable)
 	if l.Idx != "" {
 		inner = inner.bind(l.Idx, vals.Int(0), false)
@@ -1419,7 +1434,7 @@ func (g *gen) loop(sc sscope, depth int, outerVars []string) []Node {
 	if l.Tag != "template" && g.int(0, 1, "bind") == 1 {
 		if p, _, bound, ok := scalarPaths(inner, g.d, l.Var); ok && bound && !noExpr(p[0]) {
 			l.Bind = p[0]
-			if l.Var == strings.ToLower(l.Var) && g.int(0, 1, "bindas") == 0 {
+			if l.Var == strings.ToLower(l.Var) && isASCII(l.Var) && g.int(0, 1, "bindas") == 0 {
 				l.BindAs = l.Var // :value="value" on the looped element
 			}
 		}
